@@ -304,4 +304,35 @@ def backoffExt (jn jd : Nat) : Ext
 def backoffEnv (b : Backoff) (attempt : Int) : Env :=
   [("b.minDelay", .int b.minDelay), ("b.maxDelay", .int b.maxDelay), ("attempt", .int attempt)]
 
+/-! ### client options -/
+
+/-- The client options that touch reconnection and keepalive. -/
+inductive Opt where
+  | noReconnect
+  | backoff (minDelay maxDelay : Int)
+  | ping (d : Int)
+  | timeout (d : Int)
+  deriving Repr, DecidableEq
+
+def optExt : Ext
+  | "lit:backoff", kvs, env => .ok (.tag "backoff" (Val.ofList (kvs.map kvOf))) env
+  | fn, _, _ => .stuck fn
+
+def _root_.Jrpc.MiniGo.Out.env? : Out → Option Env
+  | .ret _ env => some env
+  | _ => none
+
+/-- Apply one option: run the translated closure the option constructor returns on the configuration `c`. -/
+def applyOpt (o : Opt) (env : Env) : Option Env :=
+  match o with
+  | .noReconnect => (run optExt prog_WithNoReconnect_lit1 env).env?
+  | .backoff a b => (run optExt prog_WithReconnectBackoff_lit1 ((env.set "minDelay" (.int a)).set "maxDelay" (.int b))).env?
+  | .ping d => (run optExt prog_WithPingInterval_lit1 (env.set "d" (.int d))).env?
+  | .timeout d => (run optExt prog_WithTimeout_lit1 (env.set "d" (.int d))).env?
+
+/-- `for _, o := range opts { o(&config) }`. -/
+def applyOpts : List Opt → Env → Option Env
+  | [], env => some env
+  | o :: os, env => (applyOpt o env).bind (applyOpts os)
+
 end Jrpc.Trans
